@@ -217,6 +217,7 @@ Proof.
 Qed.
 
 (* ================================================================ B. segments *)
+Local Open Scope list_scope.
 Definition all_other (ls : list string) : Prop := forall l, In l ls -> classify l = KOther.
 Definition no_tags (ls : list string) : Prop := forall l, In l ls -> classify l <> KStart /\ classify l <> KEnd.
 
@@ -226,6 +227,9 @@ Proof.
   - now rewrite Nat.add_0_r.
   - rewrite IH. f_equal. lia.
 Qed.
+
+Lemma seg_loop_cons i l t a : seg_loop i (l :: t) a = seg_loop (S i) t (seg_step (classify l) i a).
+Proof. reflexivity. Qed.
 
 Lemma seg_loop_other ls : forall i a, all_other ls -> seg_loop i ls a = a.
 Proof.
@@ -265,14 +269,10 @@ Proof.
   intros Hp Hm Ho HS HE lines.
   assert (F : full_s (parse_segments lines) = length pre + 2 /\ full_e (parse_segments lines) = length pre + 1 + length mid).
   { unfold parse_segments, lines. generalize (segs0 (length (pre ++ tS :: mid ++ tE :: post))). intro a0.
-    rewrite seg_loop_app. simpl. rewrite HS.
-    rewrite seg_loop_app. simpl. rewrite HE.
-    destruct (seg_loop_full_pres post (S (S (1 + length pre) + length mid))
-                (seg_step KEnd (S (1 + length pre) + length mid)
-                   (seg_loop (S (1 + length pre)) mid (seg_step KStart (1 + length pre) (seg_loop 1 pre a0)))) Ho) as [E1 E2].
-    rewrite E1, E2. simpl.
-    destruct (seg_loop_full_pres mid (S (S (length pre))) (seg_step KStart (S (length pre)) (seg_loop 1 pre a0)) Hm) as [E3 E4].
-    rewrite E3. simpl. split; lia. }
+    rewrite seg_loop_app, seg_loop_cons, HS, seg_loop_app, seg_loop_cons, HE.
+    rewrite (proj1 (seg_loop_full_pres post _ _ Ho)), (proj2 (seg_loop_full_pres post _ _ Ho)).
+    cbn [seg_step full_s full_e].
+    rewrite (proj1 (seg_loop_full_pres mid _ _ Hm)). cbn [seg_step full_s full_e]. split; lia. }
   destruct F as [F1 F2]. repeat split; auto.
   unfold full_snippet_lines. rewrite F1, F2. apply slice_between.
 Qed.
@@ -303,13 +303,14 @@ Proof.
   assert (L : lines = pre ++ tS :: (a ++ tC :: b ++ tR :: c ++ tX :: d ++ tH :: e) ++ tE :: post).
   { unfold lines. repeat (rewrite <- app_assoc; simpl). reflexivity. }
   split; [rewrite L; exact F3|].
-  assert (G : g = seg_loop 1 lines (segs0 (length lines))) by reflexivity.
-  unfold lines in G at 1.
-  repeat (rewrite seg_loop_app in G; simpl in G).
-  rewrite HS, HC, HR, HX, HH, HE in G.
-  repeat (rewrite seg_loop_other in G; [|assumption]).
-  fold g in F1, F2. rewrite <- L in F1, F2. fold g in F1, F2.
-  rewrite G in *. simpl in *. repeat rewrite app_length in *. simpl in *. repeat rewrite app_length in *. simpl in *.
+  clear F1 F2 F3 L NT Kc Kr Kx Kh.
+  assert (LEN : length lines = length pre + 1 + length a + 1 + length b + 1 + length c + 1 + length d + 1 + length e + 1 + length post).
+  { unfold lines. repeat (rewrite app_length; cbn [length]). lia. }
+  unfold g, parse_segments. rewrite LEN. unfold lines.
+  repeat (rewrite seg_loop_app; rewrite seg_loop_cons).
+  rewrite HS, HC, HR, HX, HH, HE.
+  repeat (rewrite seg_loop_other; [|assumption]).
+  cbn [seg_step segs0 full_s full_e ci_s ci_e ri_s ri_e re_s re_e rh_s rh_e].
   repeat split; lia.
 Qed.
 
@@ -327,17 +328,17 @@ Proof.
 Qed.
 
 (* ================================================================ C. docstring embedding *)
-Lemma dedent_indent_line x : dedent_line (if is_empty x then x else ind12 ++ x) = x.
+Lemma dedent_indent_line x : dedent_line (if is_empty x then x else (ind12 ++ x)%string) = x.
 Proof.
-  destruct x as [|c x]; simpl; [reflexivity|].
-  unfold dedent_line. change (ind12 ++ String c x) with (ind12 ++ String c x). now rewrite strip_prefix_app.
+  destruct x as [|c x]; [reflexivity|].
+  cbn [is_empty]. unfold dedent_line. now rewrite strip_prefix_app.
 Qed.
 
 Theorem docstring_embeds_full_snippet ls : dedent_lines (indent_lines ls) = ls.
 Proof.
-  destruct ls as [|l t]; [reflexivity|]. unfold indent_lines, dedent_lines. simpl. f_equal.
+  destruct ls as [|l t]; [reflexivity|]. unfold indent_lines, dedent_lines. rewrite map_cons. f_equal.
   - unfold dedent_line. now rewrite strip_prefix_app.
-  - rewrite map_map. induction t as [|x t IH]; [reflexivity|]. simpl. now rewrite dedent_indent_line, IH.
+  - rewrite map_map. induction t as [|x t IH]; [reflexivity|]. cbn [map]. now rewrite dedent_indent_line, IH.
 Qed.
 
 (* ================================================================ D. generate_request_object *)
